@@ -165,6 +165,26 @@ def run(tier, seed):
                     rep.count(1, key=(name, k, 'continued'))
                 except impl.Timeout:
                     rep.exclude('%s continued: timeout' % name)
+            if k == nstops - 1:
+                # a further, complete run on the SAME driver object (stale results / schemes of the first run would show here)
+                try:
+                    lims2 = {'tol': -1.0, 'min': 1, 'max': [e['np'] for e in rec.events if e['k'] == 'E'][0]}
+                    ret3 = DP.run_again(S, rec, c, lims2)
+                    ev3 = DP.ret_event(S, rec, ret3, c, lims2, with_c05=False)
+                    ind = DP.independent_combination(S)
+                    pw = DP.points_and_weights_value(S)
+                    ev3['final_comb'] = DP.close(ret3[3], ind)
+                    ev3['pw_same'] = DP.close(ret3[3], pw, 1e-10)
+                    ev3['_pw'] = None if pw is None else [float(x) for x in pw]
+                    tr3 = DP.to_trace(c, lims2, rec.events + [ev3], name + ' second run on the same driver object')
+                    tr3['_sig'] = {'reeval_doubles': False, 'reeval_flag_doubles': False, 'second_run': True}
+                    traces.append(tr3)
+                    rep.count(1, key=(name, 'second run'))
+                except impl.Timeout:
+                    rep.exclude('%s second run: timeout' % name)
+                except Exception as ex:
+                    rep.violation('C05_NoException', {'strategy': c['strategy'], 'exception': type(ex).__name__, 'second_run': True},
+                                  {'config': str(c), 'exception': repr(ex)}, what='%s second run on the same driver object raised %r' % (name, ex))
     from harness.drivers.c13_driver import conclude
     return conclude(rep, traces, ('C05_',))
 
